@@ -388,7 +388,7 @@ func genHist(t *rapid.T) histCase {
 var chkHist = harness.Define("read-histories", genHist, runHist)
 
 func TestRandom(t *testing.T) {
-	chkHist.Rapid(t, harness.Pick(3000, 20000))
+	chkHist.Rapid(t, harness.Pick(3000, 200000))
 }
 
 // TestSameStringTwice: the shortest history that matters, for every documented order and both access paths.
